@@ -136,11 +136,11 @@ func runC07(c *Ctx) {
 			inCmap, stackG, isInt := false, false, false
 			for _, cd := range conds {
 				m, ok := asCmp(cd)
-				if ok && m.op == token.NEQ && isFieldLoad(m.x, ia.T, "cmapMappings") && isNilConst(m.y) {
+				if ok && m.op == token.NEQ && isFieldLoad(m.x, ia.T, c.fld("intp.cmapMappings")) && isNilConst(m.y) {
 					inCmap = c.otherEdgeErr(cd) == "undefined"
 				}
-				if ok && lenOfField(m.x, ia.T, "Stack") {
-					if kk, isC := constInt(m.y); isC && ((m.op == token.GEQ && kk == 1) || (m.op == token.GTR && kk == 0)) {
+				if ifi, isIf := cd.blk.Instrs[len(cd.blk.Instrs)-1].(*ssa.If); isIf {
+					if kk, succ, isG := underflowGuard(ifi, func(v ssa.Value) bool { return lenOfField(v, ia.T, "Stack") }); isG && kk == 1 && (succ == 0) != cd.truth {
 						stackG = c.otherEdgeErr(cd) == "stackunderflow"
 					}
 				}
